@@ -96,6 +96,9 @@ func (v *Verifier) mapLen(st *State, mt *types.Map, ref *Term) *Term {
 }
 
 func (v *Verifier) mapInitEmpty(st *State, mt *types.Map, ref *Term) {
+	if !st.local[ref.String()] {
+		st.dirty()
+	}
 	m := v.e.mapModelOf(mt)
 	dom := st.mapArr(m.domName(), m.domSort())
 	st.maps[m.domName()] = st.define("dom", Store(dom, ref, ConstArray(ArraySort(m.keySort, SBool), TFalse)))
@@ -104,6 +107,9 @@ func (v *Verifier) mapInitEmpty(st *State, mt *types.Map, ref *Term) {
 }
 
 func (v *Verifier) mapHavoc(st *State, mt *types.Map, ref *Term) {
+	if !st.local[ref.String()] {
+		st.dirty()
+	}
 	m := v.e.mapModelOf(mt)
 	dom := st.mapArr(m.domName(), m.domSort())
 	st.maps[m.domName()] = st.define("dom", Store(dom, ref, v.e.sy.Fresh("hdom", ArraySort(m.keySort, SBool))))
@@ -170,12 +176,17 @@ func (v *Verifier) doMapUpdate(st *State, mu *ssa.MapUpdate) {
 	key := v.eval(st, mu.Key)
 	val := v.eval(st, mu.Value)
 	mt := mu.Map.Type().Underlying().(*types.Map)
+	v.escapeValue(st, key)
+	v.escapeValue(st, val)
 	v.oblige(st, "mapwrite", "assignment to "+describe(mu.Map), Neq(x.L[0], IntLit(0)), mu.Pos(), nil)
 	st.assume(Neq(x.L[0], IntLit(0)))
 	v.mapSet(st, mt, x.L[0], key, val)
 }
 
 func (v *Verifier) mapSet(st *State, mt *types.Map, ref *Term, key, val Value) {
+	if !st.local[ref.String()] {
+		st.dirty()
+	}
 	m := v.e.mapModelOf(mt)
 	k := m.key(key)
 	domA := st.mapArr(m.domName(), m.domSort())
@@ -195,6 +206,9 @@ func (v *Verifier) mapSet(st *State, mt *types.Map, ref *Term, key, val Value) {
 }
 
 func (v *Verifier) mapDelete(st *State, mt *types.Map, ref *Term, key Value) {
+	if !st.local[ref.String()] {
+		st.dirty()
+	}
 	m := v.e.mapModelOf(mt)
 	k := m.key(key)
 	domA := st.mapArr(m.domName(), m.domSort())
@@ -291,6 +305,7 @@ func (v *Verifier) ghostLoad(st *State, typeKey, field string, blk, off *Term, t
 }
 
 func (v *Verifier) ghostStore(st *State, typeKey, field string, blk, off *Term, val Value) {
+	st.dirty()
 	lay := v.e.lay.Of(val.T)
 	for i, sl := range lay {
 		name := ghostArrName(typeKey, field, i)
